@@ -126,7 +126,7 @@ impl Check for C18 {
                         if write {
                             terminal_write(&mut io.borrow_mut().ftape, len).0
                         } else {
-                            terminal_read(&mut io.borrow_mut().ftape, len)
+                            terminal_read(&mut io.borrow_mut().ftape, len, true)
                         }
                     } else {
                         stage_pol(io)
@@ -243,7 +243,7 @@ fn ser_files<T: serde::Serialize + serde::de::DeserializeOwned + layout21utils::
                     let (w, l) = terminal_write(&mut io.borrow_mut().ftape, text.len() as u64);
                     (w, Policy::plain(), l)
                 } else {
-                    let r = terminal_read(&mut io.borrow_mut().ftape, text.len() as u64);
+                    let r = terminal_read(&mut io.borrow_mut().ftape, text.len() as u64, false);
                     (Policy::plain(), r, "")
                 }
             }
